@@ -148,5 +148,20 @@ class SRat:
         q = (self / c).__floor__()
         return self - SRat(q.e, 1, self.eng) * c
 
+    def __format__(self, spec):
+        """format(x, 'f' | '.Nf'): some N/10^nd with |x*10^nd - N| <= 1/2 (either neighbour at an exact tie: CPython
+        decides ties on the binary value, which an exact rational does not carry; counterexamples are replayed)"""
+        import re
+        m = re.fullmatch(r"(?:\.(\d+))?f", spec)
+        if not m:
+            raise Unsupported(f"format spec {spec!r} on a symbolic number")
+        eng, scale = self.eng, 10 ** (int(m.group(1)) if m.group(1) else 6)
+        eng._ndef = getattr(eng, "_ndef", 0) + 1
+        n = z3.Int(f"_fmt{eng._ndef}")
+        t = 2 * self.num * scale - 2 * n * self.den
+        eng.solver.add(z3.And(t <= self.den, -t <= self.den))
+        from vf.kengine.numeric import RatText
+        return RatText(SRat(n, scale, eng))
+
     def __repr__(self):
         return f"SRat({self.num}/{self.den})"
